@@ -5,7 +5,8 @@
     reachable from the root -- and refines the tree model through [abs] (the DumpTree walk). *)
 From Coq Require Import String ZArith QArith Bool Arith List.
 From GT Require Import Base.UTree Model.Reroot Model.Heap
-     Proofs.HeapBase Proofs.HeapRep Proofs.HeapGood Proofs.HeapGoodRep Proofs.HeapOf Proofs.HeapReroot.
+     Proofs.HeapBase Proofs.HeapRep Proofs.HeapGood Proofs.HeapGoodRep Proofs.HeapOf Proofs.HeapReroot
+     Proofs.HeapUnroot.
 Import ListNotations.
 Local Close Scope Q_scope.
 Local Open Scope string_scope.
@@ -52,3 +53,172 @@ Theorem C03Heap_tree_nodes : forall h t, Good h -> abs h = Some t ->
              forall n, In n ns <-> alookup n (hnodes h) <> None.
 Proof. exact tree_nodes_good. Qed.
 Print Assumptions C03Heap_tree_nodes.
+
+(** (b) Tree.UnRoot: never fails on a good heap, keeps the invariant, refines [unroot] *)
+Theorem C03Heap_unroot_total : forall h, Good h -> exists h', unroot_heap h = HOk h'.
+Proof. exact unroot_heap_total. Qed.
+Print Assumptions C03Heap_unroot_total.
+
+Theorem C03Heap_unroot_good : forall h h', Good h -> unroot_heap h = HOk h' -> Good h'.
+Proof. exact unroot_heap_good. Qed.
+Print Assumptions C03Heap_unroot_good.
+
+Theorem C03Heap_unroot_square : forall h t h', Good h -> abs h = Some t -> unroot_heap h = HOk h' ->
+  abs h' = Some (unroot t).
+Proof. exact unroot_heap_square. Qed.
+Print Assumptions C03Heap_unroot_square.
+
+(** the two pairwise helpers: ConnectNodes adds one symmetric adjacency through one fresh edge,
+    delNeighbor removes exactly one slot *)
+Theorem C03Heap_connect_nodes : forall h a b ha hb e h', a <> b ->
+  alookup a (hnodes h) = Some ha -> alookup b (hnodes h) = Some hb ->
+  length (hneigh ha) = length (hbr ha) -> length (hneigh hb) = length (hbr hb) ->
+  connect_nodes a b h = HOk (e, h') ->
+  e = hnexte h /\ alookup e (hedges h') = Some (mkHE a b e0) /\
+  has_slot h' a b e /\ has_slot h' b a e /\
+  (forall n m e', has_slot h n m e' -> has_slot h' n m e') /\
+  (forall e', e' <> e -> alookup e' (hedges h') = alookup e' (hedges h)).
+Proof. exact connect_nodes_adjacent. Qed.
+Print Assumptions C03Heap_connect_nodes.
+
+Theorem C03Heap_del_neighbor : forall h n n2 hn h',
+  alookup n (hnodes h) = Some hn -> length (hneigh hn) = length (hbr hn) -> NoDup (hneigh hn) ->
+  del_neighbor n n2 h = HOk h' ->
+  (forall e, ~ has_slot h' n n2 e) /\
+  (forall m e, has_slot h' n m e -> has_slot h n m e) /\
+  (forall m e, m <> n2 -> has_slot h n m e -> has_slot h' n m e) /\
+  (forall x m e, x <> n -> (has_slot h' x m e <-> has_slot h x m e)) /\
+  hedges h' = hedges h.
+Proof. exact del_neighbor_removes. Qed.
+Print Assumptions C03Heap_del_neighbor.
+
+(** * (c) the invariant is not vacuous, and says more than the dump *)
+Definition mk2 (n0 n1 : hnode) (ed : hedge) : heap := mkHeap [(0, n0); (1, n1)] [(1, ed)] 0 2 2.
+
+(** asymmetric adjacency: 0 lists 1, 1 does not list 0.  The dump succeeds (with a tree that is
+    not well formed: the child has no parent slot); the heap is not good. *)
+Definition h_asym : heap := mk2 (mkHN "r" [] [1] [1]) (mkHN "a" [] [] []) (mkHE 0 1 e0).
+Example C03Heap_neg_asymmetric :
+  abs h_asym = Some (UNode "r" [] [Some (e0, UNode "a" [] [])]) /\
+  wf (UNode "r" [] [Some (e0, UNode "a" [] [])]) = false /\ ~ Good h_asym.
+Proof.
+  split; [vm_compute; reflexivity|]. split; [vm_compute; reflexivity|].
+  intros G. destruct (g_sym _ G 0 1 1) as [hn [E Hin]].
+  - eexists. split; [reflexivity|]. left. reflexivity.
+  - vm_compute in E. injection E as <-. destruct Hin.
+Qed.
+Print Assumptions C03Heap_neg_asymmetric.
+
+(** symmetric, but through two different edge objects: the dump itself fails *)
+Definition h_two_edges : heap :=
+  mkHeap [(0, mkHN "r" [] [1] [1]); (1, mkHN "a" [] [0] [2])] [(1, mkHE 0 1 e0); (2, mkHE 0 1 e0)] 0 2 3.
+Example C03Heap_neg_two_edges : abs h_two_edges = None /\ ~ Good h_two_edges.
+Proof.
+  split; [vm_compute; reflexivity|].
+  intros G. destruct (g_sym _ G 0 1 1) as [hn [E Hin]].
+  - eexists. split; [reflexivity|]. left. reflexivity.
+  - vm_compute in E. injection E as <-. destruct Hin as [Hin|[]]. discriminate.
+Qed.
+Print Assumptions C03Heap_neg_two_edges.
+
+(** the branch points TOWARDS the root: the dump is a well-formed tree, the heap is not good
+    -- the structural dump alone does not see orientation *)
+Definition h_flipped : heap := mk2 (mkHN "r" [] [1] [1]) (mkHN "a" [] [0] [1]) (mkHE 1 0 e0).
+Example C03Heap_neg_orientation :
+  abs h_flipped = Some (UNode "r" [] [Some (e0, UNode "a" [] [None])]) /\
+  wf (UNode "r" [] [Some (e0, UNode "a" [] [None])]) = true /\ ~ Good h_flipped.
+Proof.
+  split; [vm_compute; reflexivity|]. split; [vm_compute; reflexivity|].
+  intros G. destruct (g_rank _ G) as [rank [R0 R1]]. specialize (R1 1 (mkHE 1 0 e0) eq_refl).
+  cbn in R0, R1. rewrite R0 in R1. discriminate.
+Qed.
+Print Assumptions C03Heap_neg_orientation.
+
+(** an edge whose ends are not the two nodes that list it: again a well-formed dump *)
+Definition h_wrong_ends : heap :=
+  mkHeap [(0, mkHN "r" [] [1; 2] [1; 2]); (1, mkHN "a" [] [0] [1]); (2, mkHN "b" [] [0] [2])]
+         [(1, mkHE 0 2 e0); (2, mkHE 0 2 e0)] 0 3 3.
+Example C03Heap_neg_edge_ends :
+  (exists t, abs h_wrong_ends = Some t /\ wf t = true) /\ ~ Good h_wrong_ends.
+Proof.
+  split; [eexists; split; vm_compute; reflexivity|].
+  intros G. destruct (g_ends _ G 0 1 1 (mkHE 0 2 e0)) as [[_ E]|[E _]]; try discriminate.
+  - eexists. split; [reflexivity|]. left. reflexivity.
+  - reflexivity.
+Qed.
+Print Assumptions C03Heap_neg_edge_ends.
+
+(** * concrete runs on a 5-tip tree (closed computations) *)
+Definition lf (n : string) : utree := UNode n [] [None].
+Definition ed (l : Q) : einfo := mkE l nilv nilv [].
+Definition eds (l s : Q) : einfo := mkE l s nilv [].
+(** ((a:1,b:2)0.5:1,(c:1,d:1)0.75:2,e:3);  and  ((a:1,b:2)0.5:1,(c:0,d:1)0.75:2); *)
+Definition hx_start : utree :=
+  UNode "" [] [Some (eds 1 (1#2), UNode "" [] [None; Some (ed 1, lf "a"); Some (ed 2, lf "b")]);
+               Some (eds 2 (3#4), UNode "" [] [Some (ed 1, lf "c"); None; Some (ed 1, lf "d")]);
+               Some (ed 3, lf "e")].
+Definition hx_rooted : utree :=
+  UNode "" [] [Some (eds 1 (1#2), UNode "" [] [None; Some (ed 1, lf "a"); Some (ed 2, lf "b")]);
+               Some (eds 2 (3#4), UNode "" [] [Some (ed 0, lf "c"); None; Some (ed 1, lf "d")])].
+
+Definition abs_is (h : heap) (t : utree) : bool :=
+  match abs h with Some t' => utree_eqb t' t | None => false end.
+
+(** Reroot on the heap at the i-th node = reroot on the tree, same error otherwise *)
+Definition chk_reroot (t : utree) (i : nat) : bool :=
+  match tree_nodes (heap_of t) with
+  | HOk ns =>
+    match nth_error ns i with
+    | Some n =>
+      match reroot_heap n (heap_of t), reroot t i with
+      | HOk h', Ok t' => abs_is h' t'
+      | HErr m, Err m' => String.eqb m m'
+      | _, _ => false
+      end
+    | None => match reroot t i with Err _ => true | _ => false end
+    end
+  | _ => false
+  end.
+
+Example C03Heap_run_abs : abs (heap_of hx_start) = Some hx_start /\ abs (heap_of hx_rooted) = Some hx_rooted.
+Proof. vm_compute. split; reflexivity. Qed.
+Print Assumptions C03Heap_run_abs.
+
+Example C03Heap_run_reroot :
+  forallb (chk_reroot hx_start) (seq 0 9) && forallb (chk_reroot hx_rooted) (seq 0 8) = true.
+Proof. vm_compute. reflexivity. Qed.
+Print Assumptions C03Heap_run_reroot.
+
+Example C03Heap_run_unroot :
+  match unroot_heap (heap_of hx_rooted), unroot_heap (heap_of hx_start) with
+  | HOk h1, HOk h2 => abs_is h1 (unroot hx_rooted) && abs_is h2 hx_start
+  | _, _ => false
+  end = true.
+Proof. vm_compute. reflexivity. Qed.
+Print Assumptions C03Heap_run_unroot.
+
+(** a history on one heap: reroot at node 4, unroot (no-op: 3 root branches), reroot at node 1,
+    reroot back at node 0 -- compared with the same history on the tree *)
+Example C03Heap_run_history :
+  match reroot_heap 4 (heap_of hx_rooted), reroot hx_rooted 4 with
+  | HOk h1, Ok t1 =>
+    match unroot_heap h1 with
+    | HOk h2 =>
+      match tree_nodes h2 with
+      | HOk ns =>
+        match nth_error ns 3 with
+        | Some n =>
+          match reroot_heap n h2, reroot (unroot t1) 3 with
+          | HOk h3, Ok t3 => abs_is h2 (unroot t1) && abs_is h3 t3
+          | _, _ => false
+          end
+        | None => false
+        end
+      | _ => false
+      end
+    | _ => false
+    end
+  | _, _ => false
+  end = true.
+Proof. vm_compute. reflexivity. Qed.
+Print Assumptions C03Heap_run_history.
